@@ -61,7 +61,9 @@ manifest = dict(
              serves_properties=[p for p in ids if p in CHECKS and CHECKS[p].get("miri")]),
     ],
     checks=checks,
-    notes="All checks are runtime monitoring: verdicts are 'held on the executions produced' / 'violated with witness' / 'inconclusive' (exit 2). See DESIGN.md.",
+    notes="All checks are runtime monitoring: verdicts are 'held on the executions produced' / 'violated with witness' / 'inconclusive' (exit 2). See DESIGN.md (section 5 = what was built and found). "
+          "Known findings and fixed defects: /verif/known_findings.json (read-only at run time; exact signatures). Seeded breaking changes and their evaluation: /verif/seeded/ (driver/seeded.py). "
+          "./check <ID> [--tier quick|thorough] [--seed N] honours VERIF_TIER / VERIF_SEED; driver/run_all.sh runs every check.",
     not_applicable=na,
 )
 with open(os.path.join(ROOT, "MANIFEST.json"), "w") as f:
